@@ -37,9 +37,30 @@ type world struct {
 	events []string // "enter", "exit", "log"
 }
 
-type capture struct{ w *world }
+// capture: a slog.Handler with a minimum level (never: enabled at no level, like slog.DiscardHandler)
+type capture struct {
+	w     *world
+	min   slog.Level
+	never bool
+}
 
-func (h capture) Enabled(context.Context, slog.Level) bool { return true }
+func (h capture) Enabled(_ context.Context, l slog.Level) bool { return !h.never && l >= h.min }
+
+type minLevel struct {
+	name string
+	coq  string
+	min  slog.Level
+	none bool
+}
+
+var minLevels = []minLevel{
+	{"DEBUG", "(Some LevelDebug)", slog.LevelDebug, false},
+	{"INFO", "(Some LevelInfo)", slog.LevelInfo, false},
+	{"WARN", "(Some LevelWarn)", slog.LevelWarn, false},
+	{"ERROR", "(Some LevelError)", slog.LevelError, false},
+	{"above ERROR", "None", slog.LevelError + 4, true},
+}
+
 func (h capture) Handle(_ context.Context, r slog.Record) error {
 	x := rec{level: r.Level, msg: r.Message}
 	r.Attrs(func(a slog.Attr) bool { x.attrs = append(x.attrs, a); return true })
@@ -345,6 +366,7 @@ type config struct {
 	rt      *resolution
 	special bool // scripted 404/405/OPTIONS handlers instead of the defaults
 	attach  int  // how the Logger instance(s) are attached, see attachModes
+	minLvl  int  // minimum level of the capturing slog.Handler, see minLevels
 }
 
 // how the Logger (one capturing instance, possibly attached several times) is put in the chain
@@ -393,7 +415,7 @@ func (c config) String() string {
 	} else if c.rtMode == 2 {
 		r = c.rt.human
 	}
-	return fmt.Sprintf("logger: %s | global-resolver=%s route-resolver=%s custom-special-handlers=%v", attachModes[c.attach].name, g, r, c.special)
+	return fmt.Sprintf("logger: %s, log handler minimum level %s | global-resolver=%s route-resolver=%s custom-special-handlers=%v", attachModes[c.attach].name, minLevels[c.minLvl].name, g, r, c.special)
 }
 
 func build(cfg config, w *world, withLogger bool) *fox.Router {
@@ -405,7 +427,7 @@ func build(cfg config, w *world, withLogger bool) *fox.Router {
 		}
 	}
 	var opts []fox.GlobalOption
-	L := fox.LoggerWithHandler(capture{w})
+	L := fox.LoggerWithHandler(capture{w: w, min: minLevels[cfg.minLvl].min, never: minLevels[cfg.minLvl].none})
 	if cfg.attach == attachDefaultOptions {
 		opts = append(opts, fox.DefaultOptions()) // Recovery() for routes + Logger() to stdout (not observable here)
 	}
@@ -712,7 +734,7 @@ func main() {
 			"Definition viol := Eval vm_compute in spec_violations cases.\nPrint viol.\n" +
 			"Definition oof := Eval vm_compute in fuel_outs cases.\nPrint oof.\n",
 	}
-	st := &hx.Stats{Rule: "per configuration (Logger attached by WithMiddleware / WithMiddlewareFor with 4 scope masks / route option / several at once / DefaultOptions; router-wide resolver: none/ok/error tree; per-route resolver: inherit/nil/set; default or scripted 404/405/OPTIONS handlers) two routers are built (with and without LoggerWithHandler(capture)); every request kind (route, route reached through an alias handler calling Route.HandleMiddleware or Route.Handle, route reached by Router.Lookup + HandleMiddleware / Handle, route via ignore-trailing-slash, 404, 405, redirect 301/308, OPTIONS) is served with scripts of writer actions: (a) every status of a boundary list alone, (b) seeded random scripts (no write, implicit 200, 1xx then final, superfluous WriteHeader, Location before/after the status line, Flush/FlushError first (c.Writer().FlushError() or http.NewResponseController(w).Flush(), on an underlying writer offering nothing / http.Flusher / FlushError() error; enumerated with then-nothing / WriteHeader(500|404|302) / Write) — the underlying writers record what the CLIENT received (first final status forwarded; 200 after a bare flush or write), panic with one of 6 values at a random position); non-trivial = anything but a plain 2xx route request without resolver; distinct = distinct (configuration, request, host, remote, script) tuples"}
+	st := &hx.Stats{Rule: "per configuration (capturing log handler with minimum level DEBUG / INFO / WARN / ERROR / above ERROR; Logger attached by WithMiddleware / WithMiddlewareFor with 4 scope masks / route option / several at once / DefaultOptions; router-wide resolver: none/ok/error tree; per-route resolver: inherit/nil/set; default or scripted 404/405/OPTIONS handlers) two routers are built (with and without LoggerWithHandler(capture)); every request kind (route, route reached through an alias handler calling Route.HandleMiddleware or Route.Handle, route reached by Router.Lookup + HandleMiddleware / Handle, route via ignore-trailing-slash, 404, 405, redirect 301/308, OPTIONS) is served with scripts of writer actions: (a) every status of a boundary list alone, (b) seeded random scripts (no write, implicit 200, 1xx then final, superfluous WriteHeader, Location before/after the status line, Flush/FlushError first (c.Writer().FlushError() or http.NewResponseController(w).Flush(), on an underlying writer offering nothing / http.Flusher / FlushError() error; enumerated with then-nothing / WriteHeader(500|404|302) / Write) — the underlying writers record what the CLIENT received (first final status forwarded; 200 after a bare flush or write), panic with one of 6 values at a random position); non-trivial = anything but a plain 2xx route request without resolver; distinct = distinct (configuration, request, host, remote, script) tuples"}
 	seen := map[string]bool{}
 	nontrivial := 0
 
@@ -776,6 +798,8 @@ func main() {
 		}
 		// how the Logger is attached: every mode is used by the first configurations, then in rotation
 		cfg.attach = ci % len(attachModes)
+		// minimum level of the log handler: DEBUG mostly (every record visible), the others in rotation
+		cfg.minLvl = []int{0, 0, 0, 2, 1, 3, 4}[ci%7]
 		w := &world{}
 		withL := build(cfg, w, true)
 		w0 := &world{}
@@ -855,7 +879,7 @@ func main() {
 				}
 				acts := hx.ListOf(mscript, func(a act) string { return a.coq() })
 				gc, rc := strings.ReplaceAll(cfg.globCoq(), remotePlaceholder, hx.Bytes(rm.ip)), strings.ReplaceAll(cfg.rtCoq(), remotePlaceholder, hx.Bytes(rm.ip))
-				key := fmt.Sprintf("%s|%s|%s|%s|%s|%s|%s|%s|%s|%d|%s", gc, rc, rq.kind, rq.method, rq.target, host, rm.addr, acts, hx.Bool(cfg.special), cfg.attach, rq.disp)
+				key := fmt.Sprintf("%s|%s|%s|%s|%s|%s|%s|%s|%s|%d|%s", gc, rc, rq.kind, rq.method, rq.target, host, rm.addr, acts, hx.Bool(cfg.special), cfg.attach*10+cfg.minLvl, rq.disp)
 				if seen[key] {
 					continue
 				}
@@ -866,7 +890,7 @@ func main() {
 					disp = "DServe"
 				}
 				am := attachModes[cfg.attach]
-				term := fmt.Sprintf("(mk %s %s %s %s %s %s %s %s %s %s %s %s %s %s "+disp+" "+am.globals+" "+fmt.Sprint(am.tl)+" "+fmt.Sprint(am.al)+")",
+				term := fmt.Sprintf("(mk %s %s %s %s %s %s %s "+minLevels[cfg.minLvl].coq+" %s %s %s %s %s %s %s "+disp+" "+am.globals+" "+fmt.Sprint(am.tl)+" "+fmt.Sprint(am.al)+")",
 					rq.kind, gc, rc, hx.Bytes(rq.method), hx.Bytes(host), hx.Bytes(rq.path), hx.Bytes(rm.ip),
 					acts, hx.ListOf(o.recs, func(r rec) string { return "(" + recCoq(r) + ")" }), pan,
 					hx.Z(int64(o.status)), hx.Bytes(o.location), hx.Bool(same), hx.Bool(o.after))
@@ -883,6 +907,7 @@ func main() {
 				cs.Add(term, human)
 				st.Count("kind:" + rq.kind)
 				st.Count("logger-attached:" + attachModes[cfg.attach].name)
+				st.Count("log-handler-min-level:" + minLevels[cfg.minLvl].name)
 				st.Count(fmt.Sprintf("records-per-request:%d", len(o.recs)))
 				if rq.disp != "" {
 					st.Count("entry-point:" + rq.disp)
